@@ -188,7 +188,7 @@ def _run(ctx, cooler, split, B, pool, pool4, maps, thorough, rng, tmp):
         n = sum(per)
         nnz = len(pixels)
         F = G.dense_int(n, pixels)
-        b0, amb = G.ref_masks(o, per, F)
+        b0, amb = G.ref_masks(o, per, F)  # amb = list of MAD tie bins
         groups = G.ref_loop_float(o, per, F, b0)
         if amb or G.near_tol(groups, o["tol"]):
             skipped += 1            # float-fragile decision (MAD cutoff tie / variance at the tolerance)
@@ -309,7 +309,7 @@ def _run(ctx, cooler, split, B, pool, pool4, maps, thorough, rng, tmp):
         o["rescale"] = True
         n = sum(per)
         F = G.dense_int(n, pixels)
-        b0, amb = G.ref_masks(o, per, F)
+        b0, amb = G.ref_masks(o, per, F)  # amb = list of MAD tie bins
         groups = G.ref_loop_float(o, per, F, b0)
         if amb or G.near_tol(groups, o["tol"]):
             continue
